@@ -1,5 +1,5 @@
 import os, sys
 sys.path.insert(0, os.path.dirname(os.path.dirname(os.path.abspath(__file__))))
-from loopfam import drv, RULE, TRUSTED, ASSUME
+from loopfam import drv, RULE, TRUSTED, ASSUME, GENS
 
-PROP = dict(drivers=[drv("fault"), drv("stream", n=50), drv("fault", n=40, tags="verif poll_opt")], sites=['.*'], rule=RULE, trusted=TRUSTED, assumptions=ASSUME)
+PROP = dict(gens=GENS, drivers=[drv("fault"), drv("stream", n=50), drv("fault", n=40, tags="verif poll_opt")], sites=['.*'], rule=RULE, trusted=TRUSTED, assumptions=ASSUME)
